@@ -185,7 +185,7 @@ func cmdCheck(args []string) int {
 	if err != nil {
 		return harnessErr("%v", err)
 	}
-	b, err := buildEngine(spec, spec.Race)
+	b, err := buildEngine(spec, spec.Race || spec.RaceShare > 0)
 	if err != nil {
 		return harnessErr("%v", err)
 	}
@@ -261,12 +261,23 @@ func cmdCheck(args []string) int {
 			defer wg.Done()
 			for j := range jobs {
 				emit := ""
+				bin := bin
+				shared := spec.RaceShare > 0 && j.idx >= nSweep && j.idx%spec.RaceShare == 0 && len(onlyCases) == 0
+				if shared {
+					bin = b.RaceBin // this run is executed by the race-detector build
+				}
 				if j.idx < 3 {
 					emit = "tape,trace"
-				} else if spec.Race {
+				} else if spec.Race || shared {
 					emit = "tape" // race reports are attached by the orchestrator, which needs the tape
 				}
 				o := runChild(childOpts{Bin: bin, Mode: "run", Case: j.kase, Tier: tier, Emit: emit, Timeout: childTimeout})
+				if shared && o.Res != nil {
+					if o.Res.Stats == nil {
+						o.Res.Stats = map[string]int64{}
+					}
+					o.Res.Stats["runs_under_race_detector"] = 1
+				}
 				if o.Res == nil && !o.TimedOut {
 					// one retry distinguishes a flaky start from a real crash
 					o2 := runChild(childOpts{Bin: bin, Mode: "run", Case: j.kase, Tier: tier, Emit: emit, Timeout: childTimeout})
@@ -479,8 +490,9 @@ func cmdCheck(args []string) int {
 			// and one that never does is counted, not reported
 			attempts = 6
 		}
+		race := spec.Race || isRace
 		for k := 0; k < attempts && okc < 2; k++ {
-			o := runTape(b, spec, s.Tape, "", childTimeout, spec.Race)
+			o := runTape(b, spec, s.Tape, "", childTimeout, race)
 			if o.Res != nil && hasSig(o.Res, s.Sig) {
 				okc++
 			}
@@ -500,12 +512,12 @@ func cmdCheck(args []string) int {
 		if minimised > 6 {
 			mb = 0 // many signatures at once: report the rest with their original tapes
 		}
-		minTape, tries := minimise(b, spec, s.Tape, s.Sig, mb, spec.Race, childTimeout)
+		minTape, tries := minimise(b, spec, s.Tape, s.Sig, mb, race, childTimeout)
 		s.MinTries = tries
-		fin := runTape(b, spec, minTape, "trace", childTimeout, spec.Race)
+		fin := runTape(b, spec, minTape, "trace", childTimeout, race)
 		if fin.Res == nil || !hasSig(fin.Res, s.Sig) {
 			minTape = s.Tape
-			fin = runTape(b, spec, minTape, "trace", childTimeout, spec.Race)
+			fin = runTape(b, spec, minTape, "trace", childTimeout, race)
 		}
 		var detail json.RawMessage = s.Detail
 		var trace []string
@@ -699,12 +711,13 @@ func cmdReplay(args []string) int {
 	if !ok {
 		return harnessErr("unknown property %s", rf.Property)
 	}
-	b, err := buildEngine(spec, spec.Race)
+	race := spec.Race || strings.HasPrefix(rf.Signature, "race|")
+	b, err := buildEngine(spec, race)
 	if err != nil {
 		return harnessErr("%v", err)
 	}
 	defer b.cleanup()
-	o := runTape(b, spec, rf.Tape, "trace", 300*time.Second, spec.Race)
+	o := runTape(b, spec, rf.Tape, "trace", 300*time.Second, race)
 	if o.Res == nil {
 		return harnessErr("no result: %s %s", o.Err, tail(o.Stderr, 2000))
 	}
